@@ -357,16 +357,22 @@ class C17(Check):
             else:
                 g = getattr(graphs, BUILDERS[case["builder"]])(instance)
             dispatcher = Dispatcher(instance, ready_operations_filter=session.make_filter(case["filters"]))
+
+            def as_configured(fts):
+                # a third of the cases pass the feature types the way a JSON / YAML configuration delivers them:
+                # as plain strings (FeatureType is a str enum and the library accepts its values)
+                return [str(t.value) for t in fts] if (len(case["picks"]) + len(case["spec"])) % 3 == 0 else fts
+
             for p in case["pre"]:
                 if p[0] == 0:
                     dispatcher.create_or_get_observer(UnscheduledOperationsObserver)
                 elif p[0] == 1:
                     fts = [t for t, h in zip((FeatureType.MACHINES, FeatureType.JOBS), p[1:]) if h]
-                    RemainingOperationsObserver(dispatcher, feature_types=fts)
+                    RemainingOperationsObserver(dispatcher, feature_types=as_configured(fts))
                 else:
                     fts = [t for t, h in zip((FeatureType.OPERATIONS, FeatureType.MACHINES, FeatureType.JOBS),
                                              p[1:]) if h]
-                    IsCompletedObserver(dispatcher, feature_types=fts)
+                    IsCompletedObserver(dispatcher, feature_types=as_configured(fts))
             n_before = len(dispatcher.subscribers)
             if "attach_at" in case:
                 # late subscription: constructed unsubscribed on the fresh dispatcher (its helper observers ARE
